@@ -47,6 +47,7 @@ func (m *Map) Map(seqno uint16, pid uint16) (bool, uint16, uint16) {
 			m.nextPid = pid
 			return true, seqno, 0
 		}
+		m.retire()
 		addMapping(m, seqno, m.delta, m.pidDelta)
 		m.next = seqno + 1
 		m.nextPid = pid
@@ -70,6 +71,37 @@ func (m *Map) reset() {
 	m.pidDelta = 0
 	m.lastEntry = 0
 	m.entries = nil
+}
+
+// retire forgets the intervals that have left the 8192-packet window.
+// It does so once the newest interval starts 16384 or more packets before
+// m.next, so that direct and Reverse never compare a sequence number with
+// an interval that is half a cycle or more old.  Called with m.mu taken,
+// before m.next advances.
+func (m *Map) retire() {
+	if len(m.entries) == 0 {
+		return
+	}
+	e := m.entries[m.lastEntry]
+	if uint16(m.next-e.first) < 16384 {
+		return
+	}
+	first := m.next - 8192
+	end := e.first + e.count
+	if compare(end, first) <= 0 {
+		// only dropped packets remain in the window
+		e = entry{
+			first:    m.next,
+			count:    0,
+			delta:    m.delta,
+			pidDelta: m.pidDelta,
+		}
+	} else {
+		e.first = first
+		e.count = end - first
+	}
+	m.entries = append(m.entries[:0], e)
+	m.lastEntry = 0
 }
 
 func addMapping(m *Map, seqno, delta, pidDelta uint16) {
@@ -202,6 +234,7 @@ func (m *Map) Drop(seqno uint16, pid uint16) bool {
 			},
 		}
 	}
+	m.retire()
 
 	m.pidDelta += pid - m.nextPid
 	m.nextPid = pid
